@@ -62,6 +62,7 @@ type Program struct {
 	nodeWritesCache  map[ast.Node][]nodeWrite
 	resRangeCache    map[*FuncInfo]*resRange
 	resBelowCache map[*FuncInfo]*resBelow
+	replayCache   map[*FuncInfo]map[*ast.IndexExpr]*replayVisit
 	nonNilVars       map[*types.Var]bool
 	postcondBusy     bool
 
